@@ -1126,6 +1126,17 @@ ctl('j4-loadorstore-split', 'C09', 'E8a', SE,
 	s.moduleStates[moduleName] = state
 	return state""", 'LoadOrStoreModuleState',
     'lookup and registration in two critical sections again, inside the model')
+ctl('f5-inner-map-escapes', 'C09', 'F5', 'models/entity.go',
+    """	if len(s.entityComponents[entityComponentTypeID]) == 0 {
+		return nil
+	}
+""",
+    """	if len(s.innerOf(entityComponentTypeID)) == 0 {
+		return nil
+	}
+""", 'innerOf', 'an unexported getter hands out the live per-type map',
+    edits=[dict(file='models/entity.go', old='func (s *EntityComponentStore) ListAll() []*hagallpb.EntityComponent {',
+                new='func (s *EntityComponentStore) innerOf(t uint32) map[uint32]*hagallpb.EntityComponent {\n\tm := s.entityComponents[t]\n\treturn m\n}\n\nfunc (s *EntityComponentStore) ListAll() []*hagallpb.EntityComponent {')])
 ctl('e7-remove-any-registered', 'C07', 'E7', SE,
     """	if registered, ok := s.sessions[id]; !ok || registered != session {""",
     """	if _, ok := s.sessions[id]; !ok {""", 'Remove:idempotent',
